@@ -66,6 +66,22 @@ where
     }
 }
 
+impl<F: TryFuture> TryJoinAll<F> {
+    /// Drops every output written so far and empties the buffer.
+    /// An output has been written for exactly the vacant slots of the queue,
+    /// except `skip` (the slot of a future that failed).
+    fn drop_outputs(&mut self, skip: Option<usize>) {
+        let mut output = core::mem::replace(&mut self.output, Vec::new().into_boxed_slice());
+        for (i, out) in output.iter_mut().enumerate() {
+            if Some(i) != skip && self.queue.tasks.get(i).is_none() {
+                // SAFETY: slot `i` is vacant because its future returned `Ok`,
+                // whose value was written to `output[i]` and not read since.
+                unsafe { out.assume_init_drop() };
+            }
+        }
+    }
+}
+
 impl<F: TryFuture> Future for TryJoinAll<F> {
     type Output = Result<Vec<F::Ok>, F::Err>;
 
@@ -75,7 +91,14 @@ impl<F: TryFuture> Future for TryJoinAll<F> {
                 Poll::Ready(Some((i, Ok(t)))) => {
                     self.output[i].write(t);
                 }
-                Poll::Ready(Some((_, Err(e)))) => {
+                Poll::Ready(Some((i, Err(e)))) => {
+                    // slot `i` is vacant but has no output. Release the outputs
+                    // collected so far and cancel the remaining futures, so that
+                    // the buffer can never be mistaken for a complete one.
+                    self.drop_outputs(Some(i));
+                    for j in 0..self.queue.capacity() {
+                        self.queue.tasks.remove(j);
+                    }
                     break Poll::Ready(Err(e));
                 }
                 Poll::Ready(None) => {
